@@ -49,10 +49,11 @@ class UAnom:
 
 class UEntry:
     __slots__ = ('kind', 'fe_block', 'fe_abs', 'info_len', 'extents', 'link_count', 'fid_count', 'children', 'target',
-                 'name', 'path', 'times', 'embedded', 'blocks_recorded', 'unique_id', 'hidden', 'fid_off')
+                 'name', 'path', 'times', 'embedded', 'blocks_recorded', 'unique_id', 'hidden', 'fid_off', 'parent_block')
 
     def __init__(self):
         self.children = None
+        self.parent_block = None
         self.target = None
         self.extents = []
         self.fid_count = 0
@@ -446,6 +447,7 @@ class UdfImage:
 
     def _walk(self):
         queue = [self.root]
+        self.root.parent_block = self.root.fe_block
         seen = set()
         ndirs = nfiles = 0
         while queue:
@@ -493,6 +495,11 @@ class UdfImage:
                         self.anom('udf2.60/2.3.4/parent-fid-not-first', base + off, d.path)
                     if l_fi != 0:
                         self.anom('ecma167.4/14.4.4/parent-fid-with-identifier', base + off)
+                    # ECMA-167 4/8.6 and 4/14.4.5: the parent entry identifies the ICB of the parent directory
+                    # (the root directory is its own parent)
+                    want = getattr(d, 'parent_block', None)
+                    if want is not None and icb_block != want:
+                        self.anom('ecma167.4/8.6/parent-fid-icb', base + off + 20, 'dir %r: parent entry points at block %d, the parent directory is at %d' % (d.path, icb_block, want))
                     off += total
                     first = False
                     continue
@@ -514,6 +521,8 @@ class UdfImage:
                 if child is None:
                     self.fe_failures += 1
                     continue
+                if child.kind == 'dir' and getattr(child, 'parent_block', None) is None:
+                    child.parent_block = d.fe_block
                 child.fid_count += 1
                 if bool(chars & 0x02) != (child.kind == 'dir'):
                     self.anom('ecma167.4/14.4.3/fid-directory-bit-vs-icb-type', base + off - total, path)
